@@ -211,6 +211,12 @@ class Verifier(Engine, ExprMixin, StmtMixin, CallMixin):
             st.env[g] = self.spec_val(expr, st)
         if fi.is_generator:
             self.setup_generator(c, st)
+        # locals named by after_assign clauses must still be assigned somewhere in the function (a clause that can never
+        # fire would be vacuous): static check on the current source
+        assigned = {t.id for n_ in ast.walk(fi.node) if isinstance(n_, ast.Assign) for t in n_.targets if isinstance(t, ast.Name)}
+        for name_ in c.after_assign:
+            if name_ not in assigned:
+                raise ContractMismatch(f"{c.key}: local '{name_}' named by an after_assign clause is no longer assigned")
         paths = self.exec_block(_strip_doc(fi.node.body), st)
         # loops named by the contract must exist
         for key in c.loops:
